@@ -239,3 +239,13 @@ PROPS["C10"] = dict(
     ],
     assumptions=["protected bytes = the stored bytes of a checksummed file incl. its sector offset and checksum tables; the (attributes) file and the data of files it covers; V4 header and tables; every byte the weak signature's digest covers and the 64 signature bytes (not the 8 unsigned header bytes of the signature file)"],
 )
+
+PROPS["C16"] = dict(
+    rule="images of 12 (quick) / 20 (thorough, up to 512x512) sizes incl. 1x1, non-square, non-power-of-two and one-pixel-wide/high, five content kinds (noise > 256 colours, <= 7 colours, all transparent, gradients, flat) x 25 targets (BLP0/1/2 x palettised at alpha 0/1/4/8, raw BGRA, JPEG with/without alpha, DXT1/3/5 with/without alpha) x mipmaps on/off x filter Nearest/Triangle (quick: a rotating third of the grid): image_to_blp -> encode -> parse must give the identical BlpImage, a second encode identical bytes, level count and per-level dimensions down to 1x1, every level decodable at its dimensions, locator extents inside the file, disjoint, unused slots zero and equal to the model's layout; raw BGRA pixels equal the source; palettised colours are palette entries and alpha equals the source alpha quantised as the model's packAlpha predicts. mipmaps_count is compared with floor(log2) for widths 1..600 and the powers of two +-1 up to 65535. non-trivial = a (size, target, mips) combination that passed all comparisons",
+    trusted_base=COMMON_TB + [
+        "JPEG and DXT pixel content is lossy and not compared; only structure, sizes and layout are",
+        "colour quantisation (color_quant) is taken as given: only membership of decoded colours in the palette is checked",
+        "the image crate's resize produces the requested dimensions (checked per level by the oracle)",
+    ],
+    assumptions=["dimensions below 65536 (the format's own limit, enforced by the encoder)"],
+)
